@@ -239,6 +239,26 @@ Fixpoint block_has_callend (i : Z) (rest : list (list Z)) : bool :=
   | _ :: t => block_has_callend i t
   end.
 Definition ovl_flag (i : Z) : Z := - (1000000 + i).
+(* the raw queues the implementation showed at the end of such a block (record 24): alloc4, alloc6, dang4, dang6 *)
+Fixpoint find_raw (i : Z) (rest : list (list Z)) : option (list Z * list Z * list Z * list Z) :=
+  match rest with
+  | [] => None
+  | (99 :: _) :: _ => None
+  | (24 :: j :: q) :: t =>
+      if j =? i then
+        match take_list q with
+        | Some (a4, q1) => match take_list q1 with
+                           | Some (a6, q2) => match take_list q2 with
+                                              | Some (d4, q3) => match take_list q3 with Some (d6, _) => Some (a4, a6, d4, d6) | None => None end
+                                              | None => None end
+                           | None => None end
+        | None => None end
+      else find_raw i t
+  | _ :: t => find_raw i t
+  end.
+Definition raw_matches (s : slot) (o : list Z * list Z * list Z * list Z) : bool :=
+  match o with (a4, a6, d4, d6) =>
+    list_eqb (f_alloc (s_4 s)) a4 && list_eqb (f_alloc (s_6 s)) a6 && list_eqb (f_dang (s_4 s)) d4 && list_eqb (f_dang (s_6 s)) d6 end.
 Definition set_pc (w : world) (pc : list Z) : world := mkW (w_slots w) (w_ok w) (w_why w) pc (w_pre w) (w_out w).
 
 Definition rec_step (c : cfg) (rest : list (list Z)) (w : world) (r : list Z) : world :=
@@ -255,6 +275,7 @@ Definition rec_step (c : cfg) (rest : list (list Z)) (w : world) (r : list Z) : 
   | 6 :: _ => if balancer_ok c w rest then w else fail w 60
   | 7 :: i :: fam :: _ :: removed :: _ =>
       if removed =? 0 then w else app w i (LRemoteRemove (if fam =? 6 then F6 else F4) removed) 7
+  | 24 :: _ => w
   | 8 :: i :: 1 :: _ => if block_has_callend i rest then set_pc w (ovl_flag i :: w_pc w) else w
   | 8 :: _ => w
   | 9 :: _ => w          (* a Dispose is armed to race with the next attempt: the Dispose itself is record 21 *)
@@ -286,17 +307,23 @@ Definition rec_step (c : cfg) (rest : list (list Z)) (w : world) (r : list Z) : 
       let '(i4, i6) := two_lists ips in
       if k =? 0 then w    (* preload: consumed when the world is built *)
       else
-      let w1 :=
-        if k =? 1 then app w i (LCreateEnd (dec_bool ok) eni (dec_bool trunk) prim i4 i6 code) 12
-        else if k =? 2 then app w i (LAssignEnd F4 (dec_bool ok) i4 code) 12
-        else if k =? 3 then app w i (LAssignEnd F6 (dec_bool ok) i6 code) 12
-        else if (k =? 4) || (k =? 5) then app w i (LUnassignEnd (fam_of k) (dec_bool ok) (dec_bool eff)) 12
-        else app w i (LDeleteEnd (dec_bool ok) (dec_bool eff)) 12 in
-      if memz (ovl_flag i) (w_pc w1) then
-        (* the workers woken by the overlapping sync run now *)
-        let w2 := set_pc w1 (remz (ovl_flag i) (w_pc w1)) in
-        match slot_at w2 i with Some s => put_slot w2 i (arm (flush_slot (arm s))) | None => w2 end
-      else w1
+      let endl (w0 : world) :=
+        if k =? 1 then app w0 i (LCreateEnd (dec_bool ok) eni (dec_bool trunk) prim i4 i6 code) 12
+        else if k =? 2 then app w0 i (LAssignEnd F4 (dec_bool ok) i4 code) 12
+        else if k =? 3 then app w0 i (LAssignEnd F6 (dec_bool ok) i6 code) 12
+        else if (k =? 4) || (k =? 5) then app w0 i (LUnassignEnd (fam_of k) (dec_bool ok) (dec_bool eff)) 12
+        else app w0 i (LDeleteEnd (dec_bool ok) (dec_bool eff)) 12 in
+      if memz (ovl_flag i) (w_pc w) then
+        (* the workers woken by the overlapping sync run before or after this record: both orders are legal, the raw queues
+           observed at the end of the block tell which one it was *)
+        let w0 := set_pc w (remz (ovl_flag i) (w_pc w)) in
+        let flush (x : world) := match slot_at x i with Some s => put_slot x i (arm (flush_slot (arm s))) | None => x end in
+        let wa := endl (flush w0) in
+        let wb := flush (endl w0) in
+        match find_raw i rest, slot_at wa i with
+        | Some o, Some sa => if w_ok wa && raw_matches sa o then wa else wb
+        | _, _ => wb end
+      else endl w
   | 14 :: dt :: _ =>
       if dt <? 0 then fail w 14
       else
